@@ -1,6 +1,7 @@
 (* Honest identifiers, part 4: the three transfer functions keep [ids_valid] on both execution sides when the
-   identifiers they name are valid, the messages they emit name valid identifiers, and the theorem about the
-   dispatch: [ids_valid_exec], for all 23 functions. *)
+   identifiers they name are valid, and the messages they emit name valid identifiers ([args_ids]; for the
+   multi-transfer: the token of every emitted triple, [triples_ids]).  The theorem about the dispatch
+   ([ids_valid_exec], all 23 functions) is in ValidIds_Exec.v. *)
 From Coq Require Import Lia.
 From EV Require Import Base.Bytes Base.Store Base.Monad gen.Consts Codec.Types Helpers.Helpers
   Ledger.Types Ledger.Env Ledger.Funcs Ledger.Transfers LedgerProofs.Defs LedgerProofs.EnvSpec
@@ -66,8 +67,10 @@ Section Transfers.
   (* ---------------- ESDTTransfer ---------------- *)
   Lemma kv_f_esdt_transfer i : tok0v i -> kv E (f_esdt_transfer E i) (okout i).
   Proof.
-    intros Hv. unfold f_esdt_transfer. kv_tac E Hc Hf. all: try solve [outv_tac].
-    all: apply outv_add_log; destruct (is_sc (i_caller i)); [|apply outv_mk].
+    intros Hv. unfold f_esdt_transfer. kv_tac E Hc Hf. all: cbv zeta; apply outv_add_log.
+    all: try solve [apply outv_aot_local; assumption].
+    all: try solve [apply outv_if; [apply outv_set_gasrem|]; apply outv_mk].
+    all: destruct (is_sc (i_caller i)); [|apply outv_mk].
     all: apply outv_aot_msg; [cbn; auto 10|eapply args_ids_esdt_transfer; [eassumption|vid]].
   Qed.
 
@@ -197,7 +200,7 @@ Section Transfers.
     match goal with |- kv _ (if ?b then _ else _) _ => destruct b eqn:Esame end.
     - (* cross-shard: the message *)
       apply (kv_ret E).
-      apply outv_ant_msg; [cbn; auto 10|]. cbn [app]. rewrite <- app_assoc.
+      apply outv_ant_msg; [cbn; auto 10|]. cbn [app].
       apply args_ids_multi; [apply bigU64_lt|]. rewrite <- Hlen. apply HT.
     - apply Bool.negb_false_iff, N.eqb_eq in Esame.
       kv_tac E Hc Hf; [apply outv_aot_same; symmetry; exact Esame|exact Ho].
@@ -234,48 +237,4 @@ Section Transfers.
       intros logs _. kv_tac E Hc Hf. all: outv_tac.
   Qed.
 
-  (* ---------------- the dispatch ---------------- *)
-  Lemma call_ids_tok0v b i : named_tokens_b b i = [argn i 0] -> Forall valid_id (named_tokens_b b i) -> tok0v i.
-  Proof.
-    intros Hn H tok Ht. rewrite Hn in H. inversion H as [|x l Hx _]; subst.
-    rewrite (argn_nth_error _ _ _ Ht) in Hx. exact Hx.
-  Qed.
-
-  Theorem kv_run_bfn b i : Forall valid_id (named_tokens_b b i) -> kv E (run_bfn E b i) (okout i).
-  Proof.
-    intros Hv.
-    destruct b; cbn [run_bfn];
-      try (pose proof (call_ids_tok0v _ i eq_refl Hv) as Hv0);
-      first
-      [ apply kv_f_claim_rewards | apply kv_f_change_owner | apply kv_f_set_user_name
-      | apply kv_f_save_key_value | apply kv_f_pause | apply kv_f_roles
-      | apply kv_f_esdt_transfer; exact Hv0 | apply kv_f_esdt_burn; exact Hv0
-      | apply kv_f_freeze_wipe; exact Hv0 | apply kv_f_local_burn; exact Hv0 | apply kv_f_local_mint; exact Hv0
-      | apply kv_f_nft_add_quantity; exact Hv0 | apply kv_f_nft_burn; exact Hv0 | apply kv_f_nft_create; exact Hv0
-      | apply kv_f_nft_transfer; exact Hv0 | apply kv_f_create_role_transfer; exact Hv0
-      | apply kv_f_nft_update_attributes; exact Hv0 | apply kv_f_nft_add_uri; exact Hv0
-      | apply kv_f_multi_transfer; exact Hv ]; assumption.
-  Qed.
-
-  Theorem kv_exec f i : call_ids f i -> kv E (exec E f i) (okout i).
-  Proof.
-    unfold call_ids, named_tokens. rewrite exec_classify. destruct (classify f) as [b|].
-    - apply kv_run_bfn.
-    - intros _. apply (kv_fail E).
-  Qed.
 End Transfers.
-
-(* ---------------- the theorems about [exec] ---------------- *)
-(* every successful call of any of the 23 functions that names valid identifiers only re-establishes
-   [ids_valid], and the messages it emits name valid identifiers only *)
-Theorem ids_valid_exec_out E f i s o s' :
-  codec_ok (cdc E) -> flag_undec (cdc E) -> ids_valid E s -> call_ids f i ->
-  exec E f i s = (Ok o, s') -> ids_valid E s' /\ outv E i o.
-Proof. intros Hc Hf Hs Hv Hx. exact (kv_ok E _ _ _ _ _ (kv_exec E Hc Hf f i Hv) Hs Hx). Qed.
-
-Theorem ids_valid_exec E f i s o s' :
-  codec_ok (cdc E) -> flag_undec (cdc E) -> ids_valid E s -> call_ids f i ->
-  exec E f i s = (Ok o, s') -> ids_valid E s'.
-Proof. intros Hc Hf Hs Hv Hx. eapply ids_valid_exec_out; eauto. Qed.
-
-Print Assumptions ids_valid_exec_out.
